@@ -344,7 +344,16 @@ static int insertNode(KSI_TreeBuilder *builder, KSI_TreeNode *node, int at) {
 
 cleanup:
 
-	KSI_TreeNode_free(root);
+	if (root != NULL) {
+		/* The joined node could not be inserted further up. Its children are still owned by the
+		 * builder and by the caller - detach them and restore the slot before freeing the joined node. */
+		root->leftChild = NULL;
+		root->rightChild = NULL;
+		pSlot->parent = NULL;
+		node->parent = NULL;
+		builder->stack[at] = pSlot;
+		KSI_TreeNode_free(root);
+	}
 
 	return res;
 }
